@@ -380,11 +380,12 @@ Link.serve_client = _serve_client
 
 
 async def mini_as_server(kex, enc, mac, *, hostkey=b'ssh-ed25519', chunk=None, rekey=None, strict=True,
-                         sizes=SIZES):
+                         sizes=SIZES, k_shape=None):
     """MiniSSH server against an asyncssh client."""
     mini = M.MiniSSH('server', host_key=crypto_key(b'ssh-rsa' if hostkey.startswith(b'rsa-') else hostkey),
                      kex_algs=[kex], enc_algs=[enc], mac_algs=[mac] if mac else None, hostkey_algs=[hostkey],
                      strict_kex=strict)
+    mini.k_shape = k_shape
     link = Link(mini, chunk)
     kw = alg_kw(kex, enc, mac)
     if rekey == 'asyncssh':
